@@ -13,6 +13,7 @@ usage: tools/refactor_twin.py [--rename] [--log | --flip] [props...]
   --retvar  `return <expr>` becomes `_ret = <expr>; return _ret`
   --elseret `if c: ...; return` + REST becomes `if c: ...; return  else: REST`
   --recv    `self.app.<component>.m()` goes through a local bound at the start of the function
+  --annot   `x = v` becomes `x: object = v` for plain locals
 """
 
 from __future__ import annotations
@@ -47,7 +48,7 @@ def failing(prop: str, root: Path) -> tuple[set[str], list[str]]:
 def main() -> int:
     args = [a for a in sys.argv[1:] if not a.startswith("--")]
     rename = "--rename" in sys.argv
-    mode = next((m for m in ("log", "flip", "try", "retvar", "elseret", "recv") if f"--{m}" in sys.argv), "")
+    mode = next((m for m in ("log", "flip", "try", "retvar", "elseret", "recv", "annot") if f"--{m}" in sys.argv), "")
     props = args or PROPS
     src = Path("/repo")
     tmp = Path(tempfile.mkdtemp(prefix="sa-twin-"))
